@@ -15,6 +15,7 @@
    `E` or `T <ncols> <nrows> <detected line break> | h… | c… | c… …` (dec). -/
 import Csvq.Model.Proto
 import Csvq.Model.Csv
+import Csvq.Model.Ltsv
 namespace Csvq.Drive
 open Csvq Csvq.Proto
 
@@ -105,12 +106,36 @@ def decCsv (args : List String) : String :=
     | _, _, _, _, _ => "bad-op"
   | _ => "bad-op"
 
+def encLtsv (args : List String) : String :=
+  match args with
+  | lb :: tbl =>
+    match parseLB lb, parseTable parseCell tbl with
+    | some lb, some (h, rows) =>
+      match Ltsv.encodeLtsv { lb := lb } ⟨h, rows⟩ with
+      | .ok cs => hexOut cs
+      | .error _ => "E"
+    | _, _ => "bad-op"
+  | _ => "bad-op"
+
+def decLtsv (args : List String) : String :=
+  match args with
+  | [wn, hx] =>
+    match parseBool wn, unhexText hx with
+    | some wn, some inp =>
+      match Ltsv.decodeLtsv { withoutNull := wn } inp with
+      | .ok t => showDTable (Ltsv.detectLB inp) t
+      | .error _ => "E"
+    | _, _ => "bad-op"
+  | _ => "bad-op"
+
 end C02
 
 def c02 (cmd : String) (args : List String) : String :=
   match cmd, args with
   | "enc", "csv" :: rest => C02.encCsv rest
   | "dec", "csv" :: rest => C02.decCsv rest
+  | "enc", "ltsv" :: rest => C02.encLtsv rest
+  | "dec", "ltsv" :: rest => C02.decLtsv rest
   | "nop", [] => "ok"     -- a case whose law is checked on the implementation alone
   | _, _ => "bad-op"
 
